@@ -43,7 +43,11 @@ def showXRs (l : List XR) : String :=
 
 inductive Verdict where
   | ok (tag : String)
+  /-- implementation and model disagree on an input, and the disagreement is a failure of the property -/
   | bad (model : String)
+  /-- implementation and model disagree, but on this input the property itself still holds (e.g. both reject, with
+      different error kinds): the correspondence no longer checks, no failing input -/
+  | differs (model : String)
 
 def allAgree (impl model : List XR) (scale : Option Rat) : Bool :=
   impl.length == model.length && (List.zipWith (fun a b => XR.agrees a b scale) impl model).all id
@@ -58,6 +62,13 @@ def cmpArr (impl : String) (shape : List Nat) (data : List XR) (scale : Option R
   | _ => .bad modelS
 
 def cmpStr (impl model tag : String) : Verdict := if impl == model then .ok tag else .bad model
+
+/-- outcome of a reader / rejecting operation: equal, or both are errors of different kinds (the input is still
+    rejected: the property holds on it), or a real disagreement -/
+def cmpRead (impl model tag : String) : Verdict :=
+  if impl == model then .ok tag
+  else if impl.startsWith "ERR " && model.startsWith "ERR " then .differs model
+  else .bad model
 
 /-- call history with the reported remaining length before each call: `len:item;len:item;…` -/
 def history {σ β} (next : σ → Option β × σ) (len : σ → Nat) (render : β → String) : Nat → σ → List String
